@@ -118,6 +118,8 @@ def execute(behaviours, d, timeout=1500):
         # own override; both routes are exercised (alternating by behaviour id)
         b['cfg'] = dict(b['cfg'])
         b['cfg'].setdefault('minVia', 'stream' if b['id'] % 2 else 'server')
+        # a restarted replica gets the metadata by replaying the operations or from a snapshot of a live one
+        b['cfg'].setdefault('restartVia', 'snapshot' if b['id'] % 4 >= 2 else 'replay')
     stim = os.path.join(d, 'stim.json')
     trace = os.path.join(d, 'trace.ndjson')
     core.write_json(stim, {'behaviours': behaviours})
